@@ -172,6 +172,23 @@ def check(ctx, rule):
         ctx.ob(f"{rule}.msgpack-lossless", BCIF, "BinaryCIFFile.write", "packb options " + str(sorted(k.arg or "**" for k in c_.keywords)), not bad,
                f"packer option {bad[0] if bad else ''} changes values on their way into the file (floats are narrowed to binary32 by use_single_float)",
                c_.lineno)
+        # ... and the hook the packer calls for what it cannot serialise itself (NumPy scalars: the parameters of FixedPoint /
+        # IntervalQuantization / Delta encodings) hands back the Python value of the scalar: `.item()` keeps a float a float,
+        # `int(..)` would truncate it.  The hook is compared as a whole function with that definition
+        hooks = [k.value for k in c_.keywords if k.arg == "default"]
+        for h in hooks:
+            if isinstance(h, ast.Name) and h.id in s.funcs:
+                from .equiv import same_function
+                hf = s.funcs[h.id]
+                prm = param_names(hf)[0]
+                okh, shown = same_function(hf, f"def {hf.name}({prm}):\n    if isinstance({prm}, np.generic):\n        return {prm}.item()\n"
+                                               f"    else:\n        raise TypeError('x')\n")
+                ctx.ob(f"{rule}.msgpack-lossless", BCIF, hf.name, "NumPy scalar -> scalar.item()", okh,
+                       "the packer's fallback for NumPy scalars must hand back the scalar's own Python value (float parameters stay "
+                       "floats); the code computes " + shown, hf.lineno)
+            else:
+                ctx.ob(f"{rule}.msgpack-lossless", BCIF, "BinaryCIFFile.write", "default hook is a function of the module", False,
+                       "the packer's fallback hook cannot be resolved", c_.lineno)
     okr = all(call_name(p) in ("BinaryCIFFile.deserialize", "cls.deserialize") for p in [c for c in calls(fl["read"]) if any(u is a for u in unp for a in c.args)])
     ctx.ob(f"{rule}.read-deserialises", BCIF, "BinaryCIFFile.read", "BinaryCIFFile.deserialize(msgpack.unpackb(...))", okr and bool(unp),
            "read() builds the file from the unpacked content", fl["read"].lineno)
